@@ -681,6 +681,7 @@ func c01Spec(v *verifOut, cons string, n int, idx int) wSpec {
 		spec.dropProb, spec.dupProb = 0.05*float64(rng.Intn(4)), 0.03*float64(rng.Intn(3))
 	}
 	spec.withhold = rng.Intn(4) == 0
+	spec.crypto = []string{"ecdsa", "ecdsa", "eddsa", "bls12"}[rng.Intn(4)]
 	if rng.Intn(3) == 0 {
 		spec.fetchFail = 0.15 * float64(1+rng.Intn(3)) // flaky block fetches
 	}
@@ -711,7 +712,7 @@ func TestVerifC01(t *testing.T) {
 		for k := range reps {
 			reps[k] = hotstuff.ID(k + 1)
 		}
-		meta := map[string]any{"consensus": cons, "n": n, "byz": spec.byz, "twins": spec.twins, "world_seed": spec.seed, "script": tag,
+		meta := map[string]any{"consensus": cons, "n": n, "byz": spec.byz, "twins": spec.twins, "world_seed": spec.seed, "script": tag, "crypto": spec.crypto, "fetch_fail": spec.fetchFail,
 			"events": len(h.events), "commits": res.commits, "drop": spec.dropProb, "dup": spec.dupProb, "withhold": spec.withhold, "trace": h.evDesc}
 		nontrivial := h.votes >= 4 && h.commits >= 1
 		key := fmt.Sprintf("%s/%d/%v/%v/%s", cons, n, spec.byz, spec.twins, strings.Join(h.events, ";"))
@@ -726,6 +727,9 @@ func TestVerifC01(t *testing.T) {
 		v.CountN("unknown_signs", h.unknownSigns)
 		v.CountN("go_panics", len(h.w.panics))
 		v.Count("hist_" + cons + fmt.Sprintf("_n%d_f%d_%s", n, len(byzAll), tag))
+		if spec.crypto != "" {
+			v.Count("scheme_" + spec.crypto)
+		}
 		if len(h.w.panics) > 0 {
 			v.Note("panic in code under test (C10): " + h.w.panics[0])
 		}
